@@ -34,6 +34,10 @@ const maxPacketSize = 128 * 1024
 func readMessage(in transport.Transport, pending *[]byte) (pt int, n int, msg []byte, err error) {
 	buf := *pending
 
+	// a transport read may hand over bytes together with an error (the end of a chunked body that
+	// follows the last packet in the same buffer, for instance): the bytes are processed first,
+	// the error is reported once no complete packet is left
+	var readErr error
 	for {
 		if len(buf) >= 8 {
 			sz := binary.LittleEndian.Uint32(buf[4:8])
@@ -50,11 +54,15 @@ func readMessage(in transport.Transport, pending *[]byte) (pt int, n int, msg []
 			}
 		}
 
-		size, pkt, err := in.ReadPacket()
-		if err != nil {
-			return 0, 0, []byte{0, 0}, err
+		if readErr != nil {
+			*pending = buf
+			return 0, 0, []byte{0, 0}, readErr
 		}
-		buf = append(buf, pkt[:size]...)
+		size, pkt, err := in.ReadPacket()
+		if size > 0 {
+			buf = append(buf, pkt[:size]...)
+		}
+		readErr = err
 	}
 }
 
